@@ -1966,6 +1966,8 @@ static int64_t eval3(Node *node, char ***label) {
   case ND_CAST: {
     if (node->ty->kind == TY_BOOL && is_flonum(node->lhs->ty))
       return eval_double(node->lhs) != 0;
+    if (node->ty->kind == TY_LONG && node->ty->is_unsigned && is_flonum(node->lhs->ty))
+      return (uint64_t)eval_double(node->lhs);
     int64_t val = eval2(node->lhs, label);
     if (node->ty->kind == TY_BOOL)
       return val != 0;
